@@ -17,7 +17,7 @@ import os
 import time
 from concurrent.futures import ThreadPoolExecutor
 
-from .. import bashrun, build, coqcheck, gen, impl, model, mspec, paths, report, sexp
+from .. import bashrun, build, canon, coqcheck, gen, impl, model, mspec, paths, report, sexp
 
 MANIFEST = dict(
     text=('Spec/Ambig.v: `unambiguous d` (no state with two outgoing literal/within-word items that read a common word and differ '
@@ -281,6 +281,22 @@ def run(ctx, res):
         reqs.append('ambig ' + m[4:-1])
         idx.append(i)
     outs = model.run(reqs)
+    # A known mechanism explains an instance only if the model of the pinned code predicts it: the model pipeline
+    # (Driver.compile on the same text) must give an automaton on which Ambig.find also reports an instance of that
+    # class.  An ambiguity of Rust's automaton that the model's automaton does not have is a new violation.
+    amb_idx = [i for i, o in zip(idx, outs) if o.startswith('(some')]
+    mouts = model.run(['compile bash 200000 %s' % sexp.quote(texts[i].decode('latin-1')) for i in amb_idx])
+    mreq, mreq_i = [], []
+    model_says = {}
+    for i, mo in zip(amb_idx, mouts):
+        mm = sexp.parse(mo)
+        if mm[0] == 'ok':
+            mreq.append('ambig ' + sexp.dump(mm[2])); mreq_i.append(i)
+            model_says[i] = ('dfa', mm[2])
+        else:
+            model_says[i] = ('other', mo[:200])
+    for i, ao in zip(mreq_i, model.run(mreq)):
+        model_says[i] = model_says[i] + (ao,)
     verdict = {}
     nontrivial = 0
     for i, o in zip(idx, outs):
@@ -303,6 +319,13 @@ def run(ctx, res):
             continue
         counters['decided_some'] += 1
         cls = witness_class(dsx, w, texts[i].decode('latin-1'))
+        ms = model_says.get(i)
+        if cls is not None and ms is not None and ms[0] == 'dfa':
+            mw = sexp.parse(ms[2]) if ms[2].startswith('(') else ['error']
+            mcls = witness_class(ms[1], mw, texts[i].decode('latin-1')) if mw[0] == 'some' else None
+            if mw[0] == 'none' or (mw[0] == 'some' and mcls != cls and canon.canon_dfa(ms[1]) != canon.canon_dfa(dsx)):
+                counters['known_class_not_predicted_by_model'] = counters.get('known_class_not_predicted_by_model', 0) + 1
+                cls = None
         verdict[i] = cls
         inputs = dsx[4][1:]
         replay = dict(grammar=texts[i].decode('latin-1'), kind='spec-judgement',
